@@ -16,6 +16,8 @@ def main(argv):
     # operator level: K sequential producers into multi-source operators / subjects, alone and followed by pass-through operators
     parts_kernel.trace_part(rep, PID, 500 if thorough else 300, [s * 100 + 50 + i for i in range(10 if thorough else 2)], extra=['-ops'], label='drive-ops')
     pp.run(rep, PID, common.pipeline_cfgs(rep, 'illegal'))
+    # a panic inside the final observer's own callbacks must not make that observer receive anything after its terminal notification
+    pp.run(rep, PID, common.pipeline_cfgs(rep, 'observer-faults'), modes='ctl-unsafe,sync')
     rep.cov['rule'] = common.PIPE_RULE + '; ' + ('kernel traces: seeded scenarios (1-4 producers with legal and illegal scripts, 0-2 unsubscribers, adders, waiters, '
                        'inside-callback unsubscription, panicking teardowns; observable safe/eventually-safe/unsafe and the 5 subjects) run on the real '
                        'library with yield hooks; non-trivial = distinct traces in which two harness threads had calls in flight simultaneously')
